@@ -59,7 +59,10 @@ def load_known(prop: str) -> list[dict]:
     if data is None:
         raise RuntimeError("known_findings.json is not valid JSON")
     out = []
+    skip = set(filter(None, os.environ.get("VERIF_IGNORE_KNOWN", "").split(",")))  # debugging aid: treat as not listed
     for e in data.get("findings", []):
+        if e.get("id") in skip:
+            continue
         if e.get("property") == prop:
             e = dict(e)
             e["_re"] = re.compile(e.get("key_regex", ".*"), re.S)
@@ -444,7 +447,8 @@ def check(mod_name: str, tier: str, seed: int, budget: float | None = None) -> i
     wall = _now() - t0
     for kid, n in sorted(tot["known"].items()):
         e = next(x for x in known if x["id"] == kid)
-        print(f"KNOWN-FINDING: property={prop} {kid}: {e.get('summary', '')} (hit {n}x)", flush=True)
+        ex = " ".join(str(tot["known_ex"].get(kid, "")).split())[:220]
+        print(f"KNOWN-FINDING: property={prop} {kid}: {e.get('summary', '')} (hit {n}x; e.g. {ex})", flush=True)
     write_evidence(mod, tier, seed, tot, wall, violation, known)
     rate = tot["runs"] / wall * 3600 if wall > 0 else 0
     print(f"[{prop}] tier={tier} seed={seed} runs={tot['runs']} nontrivial={tot['nontrivial']} "
